@@ -23,6 +23,8 @@ pub enum Kind {
     UnexpectedEof,
     /// `find_file` returns `LoadError::UnknownFormat` (only for lookups).
     UnknownFormat,
+    /// (open faults) the file vanished between `is_file()` and `open()`
+    NotFound,
 }
 
 impl Kind {
@@ -34,8 +36,11 @@ impl Kind {
             Kind::Interrupted => io::ErrorKind::Interrupted,
             Kind::InvalidData => io::ErrorKind::InvalidData,
             Kind::UnexpectedEof => io::ErrorKind::UnexpectedEof,
+            Kind::NotFound => io::ErrorKind::NotFound,
         }
     }
+    pub const OPEN: [Kind; 5] =
+        [Kind::NotFound, Kind::PermissionDenied, Kind::Other, Kind::Interrupted, Kind::TimedOut];
     pub const FIND: [Kind; 6] = [
         Kind::PermissionDenied,
         Kind::Other,
@@ -61,14 +66,18 @@ pub struct FaultPlan {
     pub finds: BTreeMap<u64, Kind>,
     /// hit index (0 = the root file) -> (kind, bytes delivered before the error)
     pub reads: BTreeMap<u64, (Kind, usize)>,
+    /// (real loaders over SimFs only) index of the `File::open` call -> error kind: the open fails
+    /// although the `is_file()` just before it said yes (file vanished, EMFILE, EACCES, ...)
+    #[serde(default, skip_serializing_if = "BTreeMap::is_empty")]
+    pub opens: BTreeMap<u64, Kind>,
 }
 
 impl FaultPlan {
     pub fn is_empty(&self) -> bool {
-        self.finds.is_empty() && self.reads.is_empty()
+        self.finds.is_empty() && self.reads.is_empty() && self.opens.is_empty()
     }
     pub fn len(&self) -> usize {
-        self.finds.len() + self.reads.len()
+        self.finds.len() + self.reads.len() + self.opens.len()
     }
 }
 
@@ -119,6 +128,8 @@ pub enum ReadRes {
 #[derive(Clone, Debug, PartialEq, Serialize, Deserialize)]
 pub enum Event {
     Find { url: String, res: FindRes },
+    /// (real loaders over SimFs) a `File::open` below the loader: index, path as given, outcome
+    Open { idx: u64, path: String, res: FindRes },
     /// Summary of one stream, logged when it ends.
     Read { hit: u64, canon: String, bytes: usize, calls: u32, eintrs: u32, short: u32, res: ReadRes },
 }
@@ -127,6 +138,8 @@ pub struct LoaderState {
     pub history: Vec<Event>,
     pub finds: u64,
     pub hits: u64,
+    pub opens: u64,
+    pub stats_calls: u64,
     pub plan: FaultPlan,
     pub chunk: Chunking,
     rng: Rng,
@@ -143,6 +156,8 @@ impl LoaderState {
             history: vec![],
             finds: 0,
             hits: 0,
+            opens: 0,
+            stats_calls: 0,
             plan,
             chunk,
             rng: Rng::new(chunk.seed),
@@ -417,6 +432,8 @@ pub struct Outcome {
     pub fired: Counters,
     pub finds: u64,
     pub hits: u64,
+    /// `File::open` calls below a real loader (0 for the stub)
+    pub opens: u64,
 }
 
 impl Outcome {
@@ -426,6 +443,9 @@ impl Outcome {
             match e {
                 Event::Find { url, res } => {
                     d.str("F").str(url).str(&format!("{res:?}"));
+                }
+                Event::Open { idx, path, res } => {
+                    d.str("O").u64(*idx).str(path).str(&format!("{res:?}"));
                 }
                 Event::Read { hit, canon, bytes, res, .. } => {
                     d.str("R").u64(*hit).str(canon).u64(*bytes as u64).str(&format!("{res:?}"));
@@ -529,5 +549,229 @@ pub fn run_job(job: &Job) -> Outcome {
         fired: s.fired.clone(),
         finds: s.finds,
         hits: s.hits,
+        opens: s.opens,
+    }
+}
+
+// ---------------------------------------------------------------------------
+// The REAL loaders of rsass (FsLoader, CargoLoader) over the simulated file
+// system: rsass is built from the instrumented copy, in which `std::fs` and
+// the path predicates go through `rsass_verif_fs`; installing `SimBackend`
+// there makes every stat/open/read of the real loader code a simulator event.
+
+#[derive(Clone, Copy, Debug, PartialEq, Eq, Serialize, Deserialize, Default)]
+pub enum Via {
+    /// the SimLoader stub (implements the `Loader` trait itself)
+    #[default]
+    Stub,
+    /// `FsContext::for_path` + `push_path`: rsass' own FsLoader, file system simulated below it
+    Fs,
+    /// `CargoContext::for_path` + `push_path` (CARGO_MANIFEST_DIR = the simulated root directory)
+    Cargo,
+}
+
+/// Absolute prefix under which the simulated tree appears to code that builds absolute paths.
+pub const SIMROOT: &str = "/simroot";
+
+struct SimBackend {
+    fs: crate::simfs::SimFs,
+    cwd: String,
+    st: Rc<RefCell<LoaderState>>,
+}
+
+impl SimBackend {
+    fn resolve(&self, path: &std::path::Path) -> Option<String> {
+        let p = path.to_str()?;
+        if let Some(rest) = p.strip_prefix(SIMROOT) {
+            self.fs.resolve("", rest.trim_start_matches('/'))
+        } else if p.starts_with('/') {
+            None
+        } else {
+            self.fs.resolve(&self.cwd, p)
+        }
+    }
+    fn dir(&self, path: &std::path::Path) -> Option<(String, String)> {
+        let p = path.to_str()?;
+        if let Some(rest) = p.strip_prefix(SIMROOT) {
+            Some((String::new(), rest.trim_matches('/').to_string()))
+        } else if p.starts_with('/') {
+            None
+        } else {
+            Some((self.cwd.clone(), p.trim_end_matches('/').to_string()))
+        }
+    }
+}
+
+impl rsass_verif_fs::Backend for SimBackend {
+    fn is_file(&self, path: &std::path::Path) -> bool {
+        self.st.borrow_mut().stats_calls += 1;
+        self.resolve(path).is_some()
+    }
+    fn is_dir(&self, path: &std::path::Path) -> bool {
+        self.st.borrow_mut().stats_calls += 1;
+        // a directory is what resolves as the parent of a would-be child
+        match self.dir(path) {
+            Some((base, rel)) if rel.is_empty() => self.fs.is_dir(&base),
+            Some((base, rel)) => self.fs.resolve_dir(&base, &rel).is_some(),
+            None => false,
+        }
+    }
+    fn open(&self, path: &std::path::Path) -> io::Result<Box<dyn Read>> {
+        let shown = path.display().to_string();
+        let idx;
+        {
+            let mut s = self.st.borrow_mut();
+            idx = s.opens;
+            s.opens += 1;
+            if let Some(kind) = s.plan.opens.get(&idx).copied() {
+                let tag = format!("simfault#o{idx}");
+                s.delivered.push(tag.clone());
+                s.fired.inc(&format!("OpenErr:{kind:?}"));
+                s.history.push(Event::Open { idx, path: shown, res: FindRes::Err { kind, tag: tag.clone() } });
+                return Err(io::Error::new(kind.io(), tag));
+            }
+        }
+        match self.resolve(path) {
+            Some(canon) => {
+                let data = self.fs.file(&canon).expect("resolved file");
+                self.st.borrow_mut().history.push(Event::Open {
+                    idx,
+                    path: shown,
+                    res: FindRes::Hit { base: 0, canon: canon.clone() },
+                });
+                Ok(Box::new(LoaderState::open(&self.st, &canon, data)))
+            }
+            None => {
+                // POSIX: open(2) of a directory succeeds read-only; the read fails with EISDIR
+                let is_dir = self.dir(path).is_some_and(|(base, rel)| self.fs.resolve_dir(&base, &rel).is_some());
+                self.st.borrow_mut().history.push(Event::Open { idx, path: shown, res: FindRes::Miss });
+                if is_dir {
+                    return Ok(Box::new(DirHandle));
+                }
+                Err(io::Error::new(io::ErrorKind::NotFound, "No such file or directory (simfs)"))
+            }
+        }
+    }
+}
+
+/// What `File::open` of a directory gives: a handle whose reads fail.
+struct DirHandle;
+
+impl Read for DirHandle {
+    fn read(&mut self, _buf: &mut [u8]) -> io::Result<usize> {
+        Err(io::Error::new(io::ErrorKind::IsADirectory, "Is a directory (simfs)"))
+    }
+}
+
+/// Records `find_file` calls of any loader (and enforces the step budget) without changing them.
+struct Recording<L: Loader> {
+    inner: L,
+    st: Rc<RefCell<LoaderState>>,
+}
+
+impl<L: Loader> std::fmt::Debug for Recording<L> {
+    fn fmt(&self, f: &mut std::fmt::Formatter<'_>) -> std::fmt::Result {
+        write!(f, "Recording({:?})", self.inner)
+    }
+}
+
+impl<L: Loader> Loader for Recording<L> {
+    type File = L::File;
+    fn find_file(&self, url: &str) -> Result<Option<L::File>, LoadError> {
+        {
+            let mut s = self.st.borrow_mut();
+            s.finds += 1;
+            if s.finds > s.budget {
+                s.budget_hit = true;
+                s.history.push(Event::Find { url: url.to_string(), res: FindRes::Budget });
+                return Err(LoadError::Input(url.to_string(), io::Error::new(io::ErrorKind::Other, "simbudget")));
+            }
+        }
+        let r = self.inner.find_file(url);
+        let res = match &r {
+            Ok(Some(_)) => {
+                let canon = self.st.borrow().history.iter().rev().find_map(|e| match e {
+                    Event::Open { res: FindRes::Hit { canon, .. }, .. } => Some(canon.clone()),
+                    _ => None,
+                });
+                FindRes::Hit { base: 0, canon: canon.unwrap_or_default() }
+            }
+            Ok(None) => FindRes::Miss,
+            Err(e) => FindRes::Err { kind: Kind::Other, tag: e.to_string() },
+        };
+        self.st.borrow_mut().history.push(Event::Find { url: url.to_string(), res });
+        r
+    }
+}
+
+/// One compilation through rsass' own `FsLoader` / `CargoLoader`, over the simulated file system.
+pub struct RealJob<'a> {
+    pub fs: &'a crate::simfs::SimFs,
+    /// bases[0] is the directory of the root file (the simulated cwd); the others are load paths
+    pub bases: &'a [String],
+    /// root file name relative to bases[0]
+    pub root_rel: &'a str,
+    pub fmt: Fmt,
+    pub plan: &'a FaultPlan,
+    pub chunk: Chunking,
+    pub budget: u64,
+    pub via: Via,
+}
+
+pub fn run_job_real(job: &RealJob) -> Outcome {
+    use rsass::input::{CargoLoader, FsLoader};
+    COMPILED_HERE.store(true, std::sync::atomic::Ordering::Relaxed);
+    let st = Rc::new(RefCell::new(LoaderState::new(job.plan.clone(), job.chunk, job.budget)));
+    let backend = Rc::new(SimBackend { fs: job.fs.clone(), cwd: job.bases[0].clone(), st: st.clone() });
+    let old = rsass_verif_fs::install(Some(backend));
+    if job.via == Via::Cargo {
+        // CargoLoader resolves relative paths against CARGO_MANIFEST_DIR: the simulated cwd
+        std::env::set_var("CARGO_MANIFEST_DIR", format!("{SIMROOT}/{}", job.bases[0]).trim_end_matches('/'));
+    }
+    let depth = job.bases[0].split('/').filter(|c| !c.is_empty()).count();
+    let up = "../".repeat(depth);
+    let res = catch_unwind(AssertUnwindSafe(|| {
+        let r: Result<Vec<u8>, rsass::Error> = match job.via {
+            Via::Fs | Via::Stub => FsLoader::for_path(std::path::Path::new(job.root_rel)).map_err(rsass::Error::from).and_then(
+                |(mut loader, file)| {
+                    for b in &job.bases[1..] {
+                        loader.push_path(format!("{up}{b}").as_ref());
+                    }
+                    Context::for_loader(Recording { inner: loader, st: st.clone() })
+                        .with_format(job.fmt.format())
+                        .transform(file)
+                },
+            ),
+            Via::Cargo => CargoLoader::for_path(std::path::Path::new(job.root_rel)).map_err(rsass::Error::from).and_then(
+                |(mut loader, file)| {
+                    for b in &job.bases[1..] {
+                        loader.push_path(format!("{up}{b}").as_ref()).map_err(rsass::Error::from)?;
+                    }
+                    Context::for_loader(Recording { inner: loader, st: st.clone() })
+                        .with_format(job.fmt.format())
+                        .transform(file)
+                },
+            ),
+        };
+        match r {
+            Ok(bytes) => Res::Ok(String::from_utf8_lossy(&bytes).into_owned()),
+            Err(e) => Res::Err { class: classify(&e), text: e.to_string() },
+        }
+    }));
+    rsass_verif_fs::install(old);
+    let res = match res {
+        Ok(r) => r,
+        Err(_) => Res::Panic(last_panic()),
+    };
+    let s = st.borrow();
+    Outcome {
+        res,
+        history: s.history.clone(),
+        delivered: s.delivered.clone(),
+        budget_hit: s.budget_hit,
+        fired: s.fired.clone(),
+        finds: s.finds,
+        hits: s.hits,
+        opens: s.opens,
     }
 }
